@@ -563,7 +563,7 @@ def run(ctx):
     else:
         k = ks[0]
         add_inv('G24', 'G24', 0, 6)
-        add_inv('G24:c', 'G48:l', k, 16)
+        add_inv('G24:c', 'G24:l', k, 12)
         add_pairs('G120:c', k, 20)
         add_tri('G48:c', k)
     add_pairs('G48', 0, 6)
